@@ -157,7 +157,10 @@ class _BaseLayout(MaildirLayout[_MaildirT], metaclass=ABCMeta):
     def _valid_part(cls, part: str) -> bool:
         if part in ('', '.', '..') or os.sep in part:
             return False
-        return not any(ord(ch) < 0x20 or ord(ch) == 0x7f for ch in part)
+        # control characters, and lone surrogates (which neither a file name
+        # nor the subscriptions file can hold), are refused
+        return not any(ord(ch) < 0x20 or ord(ch) == 0x7f
+                       or 0xd800 <= ord(ch) <= 0xdfff for ch in part)
 
     @classmethod
     def _split(cls, name: str, delimiter: str) -> _Parts:
